@@ -105,9 +105,17 @@ func cmdVC(args []string) {
 		sort.Strings(keys)
 	}
 	if *all {
-		for k := range p.Contracts {
-			if _, ok := p.Funcs[k]; ok {
+		for k, c := range p.Contracts {
+			if _, ok := p.Funcs[k]; ok && !c.Trusted && !c.Bounded {
 				if _, isSpec := p.SpecFuncs[k]; !isSpec {
+					keys = append(keys, k)
+				}
+			}
+		}
+		// implementations of interface-level contracts
+		for k, fn := range p.Funcs {
+			if ic, _ := p.ifaceContractFor(fn); ic != nil {
+				if c := p.Contracts[k]; c == nil {
 					keys = append(keys, k)
 				}
 			}
